@@ -187,3 +187,81 @@ def query_state(s):
 def planning_problem(region, pid=1):
     from commonroad.planning.planning_problem import PlanningProblem
     return PlanningProblem(pid, init_state(), region)
+
+
+# ---- more shapes, stored occupancies, uncertain states, stop lines (C05); new builders only ------------------------
+def circle(radius=1.0, center=(0.0, 0.0)):
+    from commonroad.geometry.shape import Circle
+    return Circle(float(radius), np.array(center, dtype=float))
+
+
+def polygon(vertices):
+    from commonroad.geometry.shape import Polygon
+    return Polygon(np.array(vertices, dtype=float))
+
+
+def shape_group(shapes):
+    from commonroad.geometry.shape import ShapeGroup
+    return ShapeGroup(list(shapes))
+
+
+def stop_line(start, end):
+    from commonroad.scenario.lanelet import LineMarking, StopLine
+    return StopLine(np.array(start, dtype=float), np.array(end, dtype=float), LineMarking.SOLID)
+
+
+def set_based_prediction(shapes, t0=1):
+    """shapes: list of Shape, stored as the occupancies of time steps t0, t0+1, ..."""
+    from commonroad.prediction.prediction import Occupancy, SetBasedPrediction
+    return SetBasedPrediction(t0, [Occupancy(t0 + i, sh) for i, sh in enumerate(shapes)])
+
+
+def uncertain_init_state(region, theta_lo, theta_hi, t=0):
+    """InitialState with a position region (Shape) and an orientation interval."""
+    from commonroad.common.util import AngleInterval
+    from commonroad.scenario.state import InitialState
+    return InitialState(position=region, orientation=AngleInterval(float(theta_lo), float(theta_hi)), time_step=t,
+                        velocity=1.0, acceleration=0.0, yaw_rate=0.0, slip_angle=0.0)
+
+
+def dynamic_obstacle_from(oid, shape, state, prediction=None):
+    from commonroad.scenario.obstacle import DynamicObstacle, ObstacleType
+    return DynamicObstacle(oid, ObstacleType.CAR, shape, state, prediction)
+
+
+def static_obstacle_from(oid, shape, state):
+    from commonroad.scenario.obstacle import ObstacleType, StaticObstacle
+    return StaticObstacle(oid, ObstacleType.PARKED_VEHICLE, shape, state)
+
+
+def goal_state(position=None, theta_lo=None, theta_hi=None, t_lo=0, t_hi=10):
+    """Goal state (CustomState) with a time interval and optionally a position shape / an orientation interval."""
+    from commonroad.common.util import AngleInterval, Interval
+    from commonroad.scenario.state import CustomState
+    kw = {"time_step": Interval(t_lo, t_hi)}
+    if position is not None:
+        kw["position"] = position
+    if theta_lo is not None:
+        kw["orientation"] = AngleInterval(float(theta_lo), float(theta_hi))
+    return CustomState(**kw)
+
+
+def planning_problem_set(problems):
+    from commonroad.planning.planning_problem import PlanningProblemSet
+    return PlanningProblemSet(list(problems))
+
+
+def ks_state(t, position, orientation):
+    """KSState at time step t; position: (x, y) or a Shape (uncertain region); orientation: float or (lo, hi) interval."""
+    from commonroad.common.util import AngleInterval
+    from commonroad.geometry.shape import Shape
+    from commonroad.scenario.state import KSState
+    pos = position if isinstance(position, Shape) else np.array(position, dtype=float)
+    ori = AngleInterval(float(orientation[0]), float(orientation[1])) if isinstance(orientation, tuple) else float(orientation)
+    return KSState(position=pos, orientation=ori, time_step=t, velocity=1.0, steering_angle=0.0)
+
+
+def trajectory_prediction_from_states(shape, states):
+    from commonroad.prediction.prediction import TrajectoryPrediction
+    from commonroad.scenario.trajectory import Trajectory
+    return TrajectoryPrediction(Trajectory(states[0].time_step, list(states)), shape)
